@@ -104,6 +104,14 @@ class VariableProcessorConfig:
         self.max_string_length = max_string_length
 
 
+def _safe_str(value) -> str:
+    """Get the text form of a value, without letting a broken __str__ escape."""
+    try:
+        return str(value)
+    except Exception:
+        return f'{type(value)}@{id(value)}'
+
+
 class VariableSetProcessor(Collector):
     """Handle the processing of variables."""
 
@@ -132,7 +140,7 @@ class VariableSetProcessor(Collector):
         check_id = self.__var_cache.check_id(identity_hash_id)
         if check_id is not None:
             # this means the watch result is already in the var_lookup
-            return VariableId(check_id, name), str(value)
+            return VariableId(check_id, name), _safe_str(value)
 
         # else this is an unknown value so process breadth first
         var_ids = []
@@ -149,7 +157,7 @@ class VariableSetProcessor(Collector):
 
         var_id = self.__var_cache.check_id(identity_hash_id)
 
-        return VariableId(var_id, name), str(value)
+        return VariableId(var_id, name), _safe_str(value)
 
     def search_function(self, node: Node) -> bool:
         """
